@@ -16,21 +16,64 @@ META = {
     ),
     "anchors": ["fermionic_core.tensordot_fermionic", "fermionic_core.resolve_combined_oddpos", "fermionic_local_operators.FermionicOperator.__lt__", "fermionic_core.FermionicArray.einsum", "fermionic_core.FermionicArray.transpose"],
     "floors": {
-        "quick": {"evaluations": 2500, "distinct_nontrivial": 150, "tables": {"networks": 300, "feature/odd>=2": 150, "feature/conjugated-tensor": 80, "feature/multi-label-operand": 40, "route/split-einsum": 150}},
+        "quick": {"evaluations": 2500, "distinct_nontrivial": 150, "tables": {"networks": 300, "feature/odd>=2": 150, "feature/conjugated-tensor": 80, "feature/multi-label-operand": 40, "route/split-einsum": 150, "feature/bra-ket-label-pairs": 300}},
         "thorough": {"evaluations": 150000, "distinct_nontrivial": 8000, "tables": {"networks": 10000, "feature/odd>=2": 5000}},
     },
     "wall": {"quick": 100, "thorough": 1700},
 }
 
 
-def case(ctx, rng):
+def strip_pairs(labels):
+    """Ordered label list with every conjugate pair (same label, opposite dualness) removed."""
+    cur = list(labels)
+    while True:
+        hit = None
+        for i in range(len(cur)):
+            for j in range(i + 1, len(cur)):
+                if cur[i][0] == cur[j][0] and cur[i][1] != cur[j][1]:
+                    hit = (i, j)
+                    break
+            if hit:
+                break
+        if not hit:
+            return cur
+        cur.pop(hit[1])
+        cur.pop(hit[0])
+
+
+def braket_network(ctx, rng, sym, label_kind):
+    """Kets plus the conjugates of some (or all) of them: labels occur as conjugate pairs.
+    Ket dangling legs are either contracted with the bra copy (same name) or left open on
+    both (bra leg primed)."""
+    nk = rng.choice([2, 2, 3])
+    kets = network.build_network(ctx, rng, sym, nk, pbond=0.9, maxdang=1 if nk == 3 else 2, p_conj=0.0, label_kind=label_kind)
+    dang = network.dangling(kets)
+    closed = {nm for nm in dang if rng.random() < 0.6}
+    which = [k for k in range(nk) if rng.random() < 0.8] or [0]
+    out = list(kets)
+    for k in which:
+        t = kets[k]
+        o = ctx.call(t.x.conj)
+        if not o.ok:
+            raise Raised("conj", o)
+        out.append(N(o.value, [nm if nm in closed else nm + "*" for nm in t.names]))
+    rng.shuffle(out)
+    return out
+
+
+def case(ctx, rng, braket=False):
     sr = ctx.sr
     sym = rng.choice(gen.SYMS5)
     nt = rng.choice([2, 3, 3, 4])
     label_kind = rng.choice(["int", "int", "tuple", "str"])
     try:
-        tensors = network.build_network(ctx, rng, sym, nt, pbond=0.85, maxdang=2 if nt < 4 else 1, p_conj=0.25, label_kind=label_kind)
         feats = set()
+        if braket:
+            tensors = braket_network(ctx, rng, sym, label_kind)
+            nt = 0
+            feats.add("bra-ket-label-pairs")
+        else:
+            tensors = network.build_network(ctx, rng, sym, nt, pbond=0.85, maxdang=2 if nt < 4 else 1, p_conj=0.25, label_kind=label_kind)
         if any(any(d for _, d in labels_of(t.x)) for t in tensors):
             feats.add("conjugated-tensor")
         # sometimes replace two tensors by their contraction: an operand carrying several labels
@@ -96,6 +139,10 @@ def case(ctx, rng):
             ctx.violation(mech, f"route value differs from the graded-model value of the network (max|diff| {cmp.maxdiff(val, exp)}); routes mutually {'consistent' if agree else 'inconsistent'}", dict(wit, route=rec, other_route=rec0))
             return
         if raw != raw0:
+            if strip_pairs(raw) == strip_pairs(raw0):
+                # same labels up to conjugate pairs that one route annihilated and the other kept
+                ctx.violation("conjugate-label-pair-annihilated-on-some-routes-only", f"labels remaining on the result differ between routes by un-annihilated conjugate pairs: {raw} vs {raw0} (values agree once the pairs are evaluated)", dict(wit, route=rec, other_route=rec0))
+                return
             ctx.violation("route-labels-differ", f"labels remaining on the result differ between routes: {raw} vs {raw0}", dict(wit, route=rec, other_route=rec0))
             return
     if nodd >= 2 and np.any(exp != 0):
@@ -104,5 +151,7 @@ def case(ctx, rng):
 
 
 def run(ctx):
-    for _, rng in ctx.cases("networks", ctx.budget(30000, 600000)):
+    for _, rng in ctx.cases("networks", ctx.budget(22000, 450000)):
         ctx.run_case(case, ctx, rng)
+    for _, rng in ctx.cases("braket-networks", ctx.budget(8000, 150000)):
+        ctx.run_case(case, ctx, rng, True)
